@@ -238,7 +238,8 @@ def run(ck):
             steps_, _ = CL.split_steps(drv.trace)
             st = epoch_start(CL, events, steps_, cfg.reset)
             if st is not None and st >= 0 and obs["procs_pending"] == 0 and not parked(drv) and quiet_tail(CL, events):
-                want = [o for (o, k, v) in log.entries if o >= st and o >= log.start]
+                want = [o for (o, k, v) in log.entries if o >= st]      # within one start position nothing is skipped (retention
+                # that overtakes the consumer answers OffsetOutOfRange: a new start position)
                 got = delivered_since_epoch(CL, events, steps_, cfg.reset)
                 if cfg.maxbuf != -1 and any(len(u.data) > cfg.maxbuf for u in log.units):
                     want = None     # a message can never fit: the consumer rightly gives up (C14)
